@@ -103,6 +103,7 @@ func Variants(msaIn io.Reader, stdin bool, refID string, annoIn io.Reader, annoS
 	firstmissing := false
 
 	if stdin && refID != "" {
+		vhook.Ready("variants.Variants.first", 0)
 		select {
 		case ref = <-cMSA:
 			if ref.ID != refID {
